@@ -279,13 +279,19 @@ func itemsFromFor(
 	var values []any  // The list of values to loop over
 	// Get the list from a matrix
 	if f.Matrix.Len() != 0 {
-		if err := resolveMatrixRefs(f.Matrix, cache); err != nil {
+		// Resolve the references of this call in a copy: the matrix belongs to
+		// the task definition, which other calls compile concurrently
+		matrix := ast.NewMatrix()
+		for key, row := range f.Matrix.All() {
+			matrix.Set(key, &ast.MatrixRow{Ref: row.Ref, Value: row.Value})
+		}
+		if err := resolveMatrixRefs(matrix, cache); err != nil {
 			return nil, nil, errors.TaskfileInvalidError{
 				URI: location.Taskfile,
 				Err: err,
 			}
 		}
-		return asAnySlice(product(f.Matrix)), nil, nil
+		return asAnySlice(product(matrix)), nil, nil
 	}
 	// Get the list from the explicit for list
 	if len(f.List) > 0 {
